@@ -114,11 +114,14 @@ static const char rcsid[] = "$Id: proxyd.c,v 1.20 2013-08-28 14:45:58 mschimek E
 static void verif_trace (const char * fmt, ...);
 static vbi_capture * verif_capture_new (const char * p_dev_name);
 static void verif_trace_state (const char * p_event, int fd);
+static void verif_trace_rcv (int fd, const VBIPROXY_MSG * p_msg);
 #  define VERIF_TRACE(args...) verif_trace(args)
 #  define VERIF_STATE(ev, fd) verif_trace_state(ev, fd)
+#  define VERIF_RCV(fd, msg) verif_trace_rcv(fd, msg)
 #else
 #  define VERIF_TRACE(args...) do {} while (0)
 #  define VERIF_STATE(ev, fd) do {} while (0)
+#  define VERIF_RCV(fd, msg) do {} while (0)
 #endif
 
 #ifdef ENABLE_V4L2
@@ -1089,6 +1092,37 @@ static void verif_trace_state( const char * p_event, int fd )
    verif_trace("%s", buf);
 
    pthread_mutex_unlock(&proxy.dev[0].queue_mutex);
+}
+
+/* ----------------------------------------------------------------------------
+** Verification hook: a complete message was received from a client (before it is checked)
+** - the request parameters are logged only if the message has the size of its type
+*/
+static void verif_trace_rcv( int fd, const VBIPROXY_MSG * p_msg )
+{
+   const VBIPROXY_MSG_BODY * b = &p_msg->body;
+   unsigned int len = p_msg->head.len - sizeof(VBIPROXY_MSG_HEADER);
+
+   if ((p_msg->head.type == MSG_TYPE_CONNECT_REQ) && (len == sizeof(b->connect_req)))
+      verif_trace("\"e\":\"rcv\",\"c\":%d,\"t\":%u,\"len\":%u,\"a\":[%u,%d,%u,%u,%u,%u,%u]", fd, p_msg->head.type, p_msg->head.len,
+                  b->connect_req.services, (int) b->connect_req.strict, (unsigned int) b->connect_req.buffer_count,
+                  b->connect_req.scanning, b->connect_req.client_flags,
+                  b->connect_req.magics.protocol_compat_version, b->connect_req.magics.endian_magic);
+   else if ((p_msg->head.type == MSG_TYPE_SERVICE_REQ) && (len == sizeof(b->service_req)))
+      verif_trace("\"e\":\"rcv\",\"c\":%d,\"t\":%u,\"len\":%u,\"a\":[%u,%d,%u]", fd, p_msg->head.type, p_msg->head.len,
+                  b->service_req.services, (int) b->service_req.strict, (unsigned int) b->service_req.reset);
+   else if ((p_msg->head.type == MSG_TYPE_CHN_TOKEN_REQ) && (len == sizeof(b->chn_token_req)))
+      verif_trace("\"e\":\"rcv\",\"c\":%d,\"t\":%u,\"len\":%u,\"a\":[%u,%u,%u,%ld]", fd, p_msg->head.type, p_msg->head.len,
+                  b->chn_token_req.chn_prio, (unsigned int) b->chn_token_req.chn_profile.is_valid,
+                  (unsigned int) b->chn_token_req.chn_profile.sub_prio, (long) b->chn_token_req.chn_profile.min_duration);
+   else if ((p_msg->head.type == MSG_TYPE_CHN_NOTIFY_REQ) && (len == sizeof(b->chn_notify_req)))
+      verif_trace("\"e\":\"rcv\",\"c\":%d,\"t\":%u,\"len\":%u,\"a\":[%u,%u]", fd, p_msg->head.type, p_msg->head.len,
+                  (unsigned int) b->chn_notify_req.notify_flags, b->chn_notify_req.scanning);
+   else if ((p_msg->head.type == MSG_TYPE_CHN_IOCTL_REQ) && (len >= sizeof(b->chn_ioctl_req)))
+      verif_trace("\"e\":\"rcv\",\"c\":%d,\"t\":%u,\"len\":%u,\"a\":[%u,%u]", fd, p_msg->head.type, p_msg->head.len,
+                  b->chn_ioctl_req.request, b->chn_ioctl_req.arg_size);
+   else
+      verif_trace("\"e\":\"rcv\",\"c\":%d,\"t\":%u,\"len\":%u,\"a\":[]", fd, p_msg->head.type, p_msg->head.len);
 }
 #endif  /* ZVBI_VERIF */
 
@@ -2081,6 +2115,7 @@ static void vbi_proxyd_add_connection( int listen_fd, int dev_idx, vbi_bool isLo
          proxy.clnt_count  += 1;
 
          pthread_mutex_unlock(&proxy.clnt_mutex);
+         VERIF_TRACE("\"e\":\"accept\",\"c\":%d", sock_fd);
       }
       else
          dprintf(DBG_MSG, "add_connection: fd %d: virtual memory exhausted, abort\n", sock_fd);
@@ -2696,6 +2731,7 @@ static void vbi_proxyd_handle_client_sockets( fd_set * rd, fd_set * wr )
             /* check for finished read -> process request */
             if ( (req->io.readOff != 0) && (req->io.readOff == req->io.readLen) )
             {
+               VERIF_RCV(req->io.sock_fd, &req->msg_buf);
                if (vbi_proxyd_check_msg(&req->msg_buf, &req->endianSwap))
                {
                   vbi_proxy_msg_close_read(&req->io);
@@ -2712,6 +2748,8 @@ static void vbi_proxyd_handle_client_sockets( fd_set * rd, fd_set * wr )
                   vbi_proxyd_close(req, FALSE);
                }
             }
+            else
+               VERIF_TRACE("\"e\":\"part\",\"c\":%d,\"off\":%u,\"len\":%u", req->io.sock_fd, req->io.readOff, req->io.readLen);
          }
          else
             vbi_proxyd_close(req, FALSE);
@@ -2759,6 +2797,7 @@ static void vbi_proxyd_handle_client_sockets( fd_set * rd, fd_set * wr )
 
             vbi_proxy_msg_write(&req->io, MSG_TYPE_CHN_CHANGE_IND,
                                 sizeof(req->msg_buf.body.chn_change_ind), &req->msg_buf, FALSE);
+            VERIF_TRACE("\"e\":\"chgind\",\"c\":%d,\"flags\":%u", req->io.sock_fd, (unsigned int) req->chn_status_ind);
             req->chn_status_ind = VBI_PROXY_CHN_NONE;
          }
          else
